@@ -546,6 +546,7 @@ class C06(NlpCheck):
 @register
 class C02(NlpCheck):
     pid = "C02"
+    uses_generated = True
     slices = ["collocation-rows", "dae-rows", "root-times-and-samples"]
     tags = ("defect", "alg", "cont")
     profiles = [
